@@ -14,7 +14,7 @@ MANIFEST_TEXT = ("Lean 4 theorems, for every lane count S, every scalar type and
                  "and 'throws iff some lane throws' (solve/invert) - for LoopSIMD<.,S> and for SIMD-of-SIMD (both instances proved "
                  "lawful). Each run re-translates loop.hh/interface.hh/standard.hh/defaults.hh/DESIGN.md, re-checks the proofs, and runs "
                  "LoopSIMD<T,S> (S in 1,2,3,4,8, T in float,double,int,long,short,unsigned,bool,complex, nested, over-aligned), a minimal "
-                 "SIMD type living on the defaults, and FieldMatrix/FieldVector of LoopSIMD<double,S>, LoopSIMD<float,4> and "
+                 "SIMD type living on the defaults, and FieldMatrix/FieldVector/DynamicMatrix of LoopSIMD<double,S>, LoopSIMD<float,4> and "
                  "LoopSIMD<LoopSIMD<double,2>,2> against the scalar operation per lane by bit pattern and against the Lean model "
                  "(bit-exact, Float/Float32 = IEEE double/single).")
 MANIFEST_NOTE = ("Trusted: Lean kernel (+propext/Classical.choice/Quot.sound), tr_c09.py, fidelity of the hand-written dense-matrix "
@@ -40,7 +40,8 @@ RULE = ("cases: operator/function x scalar type {f32,f64,i32,i64,i16,u32,bool,co
         "lanes drawn independently from boundary values (+-0, +-inf, NaN, denormals, extremes, INT_MIN/MAX, UINT_MAX) and random values; "
         "abstraction layer (lane incl. rvalue, lane assignment, cond, mask reductions with one deviating lane, broadcast, max/min, mask*, "
         "implCast, lanes/Scalar/Rebind), the same through a minimal SIMD type that only has the defaults of defaults.hh, over-aligned "
-        "LoopSIMD, shifts by a vector of another type; matrices n=1..6 over LoopSIMD<double,{1,2,3,4,8}>, LoopSIMD<float,4>, "
+        "LoopSIMD, shifts by a vector of another type, operators whose scalar operand is a lane of the vector operand itself "
+        "(v OP= lane(k, v): aliasing); matrices n=1..6 (DynamicMatrix 1..8) over LoopSIMD<double,{1,2,3,4,8}>, LoopSIMD<float,4>, "
         "LoopSIMD<LoopSIMD<double,2>,2>, each lane an independent recipe (random, scaled permutation, zero column, duplicate/dependent "
         "rows, ties, powers of two, zero) so lanes need different pivot rows and some are singular; rectangular kernels "
         "mv/mtv/umv/umtv/mmv/mmtv/usmv/usmtv, left/rightmultiply, matrix and vector norms, dot, axpy; distinct = distinct op lines; "
